@@ -300,15 +300,16 @@ class CEmitter:
             rows = T.rows(nm, args)
             idn = self.tid_ident(tid)
             kinds = self.tables_used[tid]
-            k0, kt = self.item_c(rows[0][0], T)
+            kt, vt0 = T.key_value_types(nm, args)
             KT = self.ctype(kt)
+            k0 = '((%s)0)' % KT
             fn = ['static int phqv_find_%s(%s k) {' % (idn, KT)]
             for i, (k, v) in enumerate(rows):
                 fn.append('  if (k == %s) return %d;' % (self.item_c(k, T)[0], i))
             fn.append('  return -1;\n}')
             protos.append('static int phqv_find_%s(%s k);' % (idn, KT))
             bodies.append('\n'.join(fn))
-            if rows[0][1][0] == 'func':
+            if rows and rows[0][1][0] == 'func':
                 g0 = self.low.func_for(rows[0][1][1])
                 ps = ', '.join('%s %s' % (self.ctype(t), n) for n, t in g0.params)
                 an = ', '.join(n for n, t in g0.params)
@@ -321,8 +322,10 @@ class CEmitter:
                 protos.append('static void phqv_dispatch_%s(%s k, %s);' % (idn, KT, ps))
                 bodies.append('\n'.join(fn))
             else:
-                v0, vt = self.item_c(rows[0][1], T)
-                VT = self.ctype(vt)
+                if vt0[0] == 'fn':
+                    continue
+                VT = self.ctype(vt0)
+                v0 = '((%s)0)' % VT
                 fn = ['static %s phqv_second_%s(int i) {' % (VT, idn),
                       '  __CPROVER_assert(i >= 0 && i < %d, "lookup hits: iterator of %s dereferenced is not end()");' % (len(rows), nm)]
                 for i, (k, v) in enumerate(rows):
